@@ -47,4 +47,10 @@ theorem sig_readback (pk k : Nat) (h : Bytes) :
 example : keyIdText 0x00123456789ABCDE = sb "00123456789ABCDE" := by decide
 example : stringByTag [⟨1000, .ints⟩, ⟨1000, .strs [sb "x"]⟩] 1000 = [] := by decide
 
+/-- the header after the lead is ALWAYS read as the signature header (regenerated from parsers.go; before the repair of
+    D74 only when it started with the region tag 62): digests, signatures and "Signature: none" do not depend on it -/
+theorem sig_header_always_read (p : Rpm.Pkg) : Rpm.sigHeaderRecognised p = true := by
+  have h : Gen.rpmSigHeaderNeedsRegionTag = false := by decide
+  simp [Rpm.sigHeaderRecognised, Rpm.sigHeaderRecognisedB, h]
+
 end WhatIs.C19
